@@ -1565,6 +1565,107 @@ theorem witness_points_exact (m : Model) (hA : 0 < m.A) (τ : Rat) (Γ : List Ve
   rw [← bestBackupAt_value m hA τ Γ hΓ w]
   exact env_ge _ _ _ _ (List.mem_map.mpr ⟨w, hw, rfl⟩)
 
+
+/-! ## Witness: an empty agenda means the per-action set is complete
+
+  `Witness::operator()` keeps, per action, a set U of vectors each of which is the sum of one chosen projection per observation
+  (`crossSumBestAtBelief(witness, projections[a], a)`), and an agenda of all one-observation variations of the vectors found
+  (`addVariations`).  A variation leaves the agenda only when `WitnessLP::findWitness` reports that there is no belief where it
+  beats every vector of U.  The theorem below is the Witness theorem: when no variation has a witness point, U already has the
+  envelope of the full cross-sum.  The LP (`findWitness` being a complete search for such a belief) is NOT modelled: it enters as
+  the hypothesis `hno`; its answers are only tested through the solver's final output. -/
+
+theorem dot_sumVecTo (n : Nat) (b : Vec) (k : Nat) (c : Nat → Vec) :
+    dot n b (sumVecTo n k c) = sumTo k (fun o => dot n b (c o)) := by
+  induction k with
+  | zero => simp [sumVecTo, sumTo, dot_vzero]
+  | succ k ih => simp only [sumVecTo, sumTo]; rw [dot_vadd, ih]
+
+theorem sumVecTo_mem (n : Nat) (k : Nat) (P : Nat → List Vec) (c : Nat → Vec) (hc : ∀ o, o < k → c o ∈ P o) :
+    sumVecTo n k c ∈ crossTo n k P := by
+  induction k with
+  | zero => simp [sumVecTo, crossTo]
+  | succ k ih =>
+    simp only [sumVecTo, crossTo, crossSum]
+    exact List.mem_flatMap.mpr ⟨_, ih (fun o ho => hc o (by omega)), List.mem_map.mpr ⟨_, hc k (by omega), rfl⟩⟩
+
+theorem sumTo_updSlot (k : Nat) (f : Nat → Rat) (o : Nat) (ho : o < k) (x : Rat) :
+    sumTo k (updSlot f o x) = sumTo k f - f o + x := by
+  induction k with
+  | zero => omega
+  | succ k ih =>
+    simp only [sumTo]
+    rcases Nat.lt_or_ge o k with h | h
+    · rw [ih h]
+      have : updSlot f o x k = f k := by unfold updSlot; rw [if_neg (by omega)]
+      rw [this]; ring
+    · have hk : o = k := by omega
+      subst hk
+      have e1 : sumTo o (updSlot f o x) = sumTo o f := by
+        apply sumTo_congr; intro i hi; unfold updSlot; rw [if_neg (by omega)]
+      have e2 : updSlot f o x o = x := by unfold updSlot; rw [if_pos rfl]
+      rw [e1, e2]; ring
+
+/-- **witness_complete**: if at the point `b` no one-observation variation of a vector of U beats U, then U has the envelope of the
+    whole cross-sum at `b`.  (`C` = the choices behind U; `updSlot c o α` = replace observation o's projection by α.) -/
+theorem witness_complete (n k : Nat) (P : Nat → List Vec) (hP : ∀ o, o < k → P o ≠ [])
+    (C : List (Nat → Vec)) (hC : C ≠ []) (hval : ∀ c ∈ C, ∀ o, o < k → c o ∈ P o) (b : Vec)
+    (hno : ∀ c ∈ C, ∀ o, o < k → ∀ α ∈ P o,
+      dot n b (sumVecTo n k (updSlot c o α)) ≤ env n (C.map (sumVecTo n k)) b) :
+    env n (C.map (sumVecTo n k)) b = env n (crossTo n k P) b := by
+  have hne : C.map (sumVecTo n k) ≠ [] := by simpa using hC
+  apply le_antisymm
+  · apply env_mono _ _ _ b hne
+    intro α hα
+    obtain ⟨c, hc, rfl⟩ := List.mem_map.mp hα
+    exact sumVecTo_mem n k P c (hval c hc)
+  · -- suppose the full cross-sum were strictly better at b
+    by_contra hlt
+    have hlt : env n (C.map (sumVecTo n k)) b < env n (crossTo n k P) b := not_le.mp hlt
+    obtain ⟨u, hu, eu⟩ := env_attained n _ b hne
+    obtain ⟨c, hc, rfl⟩ := List.mem_map.mp hu
+    rw [env_crossTo n k P b hP, eu, dot_sumVecTo] at hlt
+    -- some observation's chosen projection is not the best one at b
+    have hex : ∃ o, o < k ∧ dot n b (c o) < env n (P o) b := by
+      by_contra hnone
+      have hall : ∀ o, o < k → env n (P o) b ≤ dot n b (c o) := by
+        intro o ho
+        by_contra h
+        exact hnone ⟨o, ho, not_le.mp h⟩
+      have := sumTo_le hall
+      linarith
+    obtain ⟨o, ho, hbetter⟩ := hex
+    obtain ⟨α, hα, eα⟩ := env_attained n (P o) b (hP o ho)
+    have hvar := hno c hc o ho α hα
+    rw [dot_sumVecTo] at hvar
+    have e : (fun o' => dot n b (updSlot c o α o')) = updSlot (fun o' => dot n b (c o')) o (dot n b α) := by
+      funext o'
+      unfold updSlot
+      split <;> rfl
+    rw [e, sumTo_updSlot k _ o ho, eu, dot_sumVecTo] at hvar
+    rw [eα] at hbetter
+    linarith
+
+/-- one Witness timestep: per-action sets with empty agendas, union over actions, envelope-preserving final prune ⇒ the result has
+    the envelope of the full backup at `b`; with `stepwise_exact` this is the expectimax value. -/
+theorem witness_step_exact (m : Model) (hA : 0 < m.A) (τ : Rat) (Γ : List Vec) (hΓ : Γ ≠ [])
+    (prune : List Vec → List Vec) (hp : EnvPreserving m.S prune)
+    (C : Nat → List (Nat → Vec)) (hC : ∀ a, C a ≠ [])
+    (hval : ∀ a, ∀ c ∈ C a, ∀ o, o < m.O → c o ∈ projList m τ Γ a o)
+    (b : Vec) (hb : NonNeg m.S b)
+    (hno : ∀ a, a < m.A → ∀ c ∈ C a, ∀ o, o < m.O → ∀ α ∈ projList m τ Γ a o,
+      dot m.S b (sumVecTo m.S m.O (updSlot c o α)) ≤ env m.S ((C a).map (sumVecTo m.S m.O)) b) :
+    env m.S (prune (unionTo m.A (fun a => (C a).map (sumVecTo m.S m.O)))) b = env m.S (backupAll m τ Γ) b := by
+  obtain ⟨k, hk⟩ : ∃ k, m.A = k + 1 := ⟨m.A - 1, by omega⟩
+  have hG : ∀ a, (C a).map (sumVecTo m.S m.O) ≠ [] := fun a => by simpa using hC a
+  have hU : unionTo m.A (fun a => (C a).map (sumVecTo m.S m.O)) ≠ [] := by rw [hk]; exact unionTo_ne_nil k _ (hG k)
+  rw [(hp _ hU).2 b hb]
+  unfold backupAll
+  rw [hk, env_unionTo m.S k _ b (fun a _ => hG a), env_unionTo m.S k _ b (fun a _ => backupA_ne_nil m τ Γ hΓ a)]
+  apply maxTo_congr
+  intro a ha
+  exact witness_complete m.S m.O _ (fun o _ => projList_ne_nil m τ Γ a o hΓ) (C a) (hC a) (hval a) b (hno a (by omega))
+
 /-! ## the hypotheses are satisfiable by a non-trivial model -/
 
 /-- two states, two actions, two noisy observations -/
